@@ -17,9 +17,18 @@ streams (through the Lean driver)
            family are cleared (fresh interpreter), then `locals()` / `arguments` are called on real instances in a
            generated order (bases first, derived first, random, repeated).  model = Model.ClassCache.lookups on the
            extracted hierarchy, spec = the uncached computation for each class.
+  gread  : histories in which EARLIER documents assign registers / define column types (the two data still kept on
+           classes) and later documents read none of them: theorem isolation_partial_reads says every document then
+           gives the trace it gives alone; after each document only the fields written so far may differ.
+  holders: the per-document state holders (TeXDocument/Context/TeX/configuration) of two real documents: the graph of
+           mutable objects reachable from each (extracted by walking the objects) goes to the driver, which computes the
+           objects reachable from both (Model.Holders); the implementation side mutates every object reachable from one
+           document and looks for the marks in everything reachable from the other.  spec = nothing shared.
+  (every gstate/gleak/gread case also compares sys.path, the working directory and TEXINPUTS before/after)
 document level (extra_checks, stream `pair`)
   generated LaTeX documents A1..Ak;B (k<=4) processed in ONE fresh python subprocess; B (and every Ai)
-  also processed ALONE in its own fresh subprocess; canonicalised toXML() (generated ids renumbered),
+  also processed ALONE in its own fresh subprocess; three entry points: TeX.input/parse, the same plus Renderer.render,
+  and plasTeX.Compile.run on a file (what the `plastex` command calls); canonicalised toXML() (generated ids renumbered),
   rendered HTML5 files for a part of the histories, and the class-attribute snapshot are compared.
 """
 import os, sys, re, json, logging, subprocess, tempfile, shutil, random as _random
@@ -35,6 +44,10 @@ LEVEL_TEXT = ('Lean 4 theorems over a statement-by-statement model of every inte
               'documents may end inside math, boxes or lists) for the repaired variant, and for the current code under the explicit '
               'hypotheses "no earlier document assigns a register, loads article, or defines a column type" (the three recorded known '
               'findings, each with a kernel-checked counterexample); the pinned code has kernel-checked counterexamples for D5, D6a, D6b. '
+              'isolation_partial_reads is the largest fragment for the current code: whatever the history does, B is isolated if it reads no '
+              'register and tests no column type that the history wrote (state_restored_except_written: nothing else ever differs); '
+              'readers_agree_with_balancedArg ties the "an argument read is balanced" abstraction to the regenerated control-flow skeletons of the '
+              'seven reader functions; holders_isolated: documents whose holders share no mutable object cannot influence each other. '
               'class_cache_transparent proves that the per-class caches @locals/@arguments (class-level state that is never reset) cannot be '
               'observed: after any history of lookups every class gets exactly its uncached table (counterexample for a cache read by attribute lookup). '
               'The model is tied to the code by differential execution from arbitrary class-level states, and the document-level '
@@ -43,13 +56,17 @@ LEVEL_NOTE = ('Trusted: Lean kernel, harness/extract.py (class defaults read at 
               'CPython. Modelled not verified: sys.modules/package import caching, logging configuration, os.environ juggling in kpsewhich, '
               'the renderer internals (observed only through the rendered files of the pair stream).')
 TECHNIQUE = 'Lean 4 proof (invariant over event folds, per-variant frame lemmas) + regenerated class defaults + differential correspondence + fresh-subprocess pair oracle'
-TRUSTED = ['toXML()/HTML5 rendering equality of real documents is carried by the pair stream (subprocess oracle), not by a theorem',
+TRUSTED = ['Model.Holders.reachList (the executable reachability the driver uses) is not proved equal to the inductive Reach of the theorem; '
+           'the holders stream compares it with the observed interference on real object graphs',
+           'toXML()/HTML5 rendering equality of real documents is carried by the pair stream (subprocess oracle), not by a theorem',
            'the list of class-level attributes was established by reading the code; an attribute outside it is only seen by the pair stream']
 ASSUMPTIONS = ['documents of the history are processed to completion (no exception escapes parse)',
                'one interpreter processes documents sequentially (no threads)']
 RULE = ('gstate/gleak: seeded histories of 1-5 event documents (structured math/box/list nesting, ~30% truncated so that they end inside '
         'math, a box or a list, ~15% malformed: stray closers, items outside lists); non-trivial = the history has >= 2 documents and an '
         'earlier document contains a state-touching event (math shift, box, list, argument, ifthen, class); distinct = distinct driver line. '
+        'gread: 2-5 documents, 70% of them with 1-2 inserted register assignments/copies/column definitions, reads of dirty data filtered out; '
+        'holders: pairs of event documents, each processed or fresh (modes pp pf fp ff), object graphs to depth 7; non-trivial = not both fresh. '
         'ccache: seeded families of <= 8 related real classes and 2-7 lookups; non-trivial = at least two different tables in the answers. '
         'pair: generated LaTeX documents (sections, math, lists, the array/tabular/tabular*/longtable, eqnarray/eqnarray*/amsmath, bibliography and '
         'float environment families, references incl. forward ones); non-trivial = history of >= 1 earlier documents with B containing math, lists or tables')
@@ -92,6 +109,7 @@ def K():
         _K['idx_init'] = [(c.level, c.counter) for c in _K['idx']]
         _K['cols_init'] = dict(ColumnType.columnTypes)
         _K['init'] = read_state()
+        _K['proc0'] = (list(sys.path), os.getcwd(), os.environ.get('TEXINPUTS'))
         _K['reg_init'] = [c.value for c in _K['regs']]
     return _K
 
@@ -126,6 +144,17 @@ def read_state():
     return {'en': int(bool(k['PC'].enabled)), 'lv': int(k['PC']._enablelevel), 'db': int(bool(k['BeginMath'].disableMath)),
             'de': int(bool(k['EndMath'].disableMath)), 'env': ''.join(env) or '-', 'dp': int(getattr(k['List'], 'depth', 0)),
             'regs': ','.join(str(_val(c.value, f)) for c, f in zip(k['regs'], FAM)), 'ix': ix, 'cols': ','.join(map(str, cols)) or '-'}
+
+
+def proc_state(cwd=None):
+    """process-level state a document must leave alone: module search path, working directory, TEXINPUTS"""
+    path0, cwd0, ti0 = K()['proc0']
+    cwd0 = cwd or cwd0
+    extra = [x for x in sys.path if x not in path0]
+    return 'sp=%d cwd=%d ti=%d' % (len(extra), int(os.getcwd() != cwd0), int(os.environ.get('TEXINPUTS') != ti0))
+
+
+PROC0 = 'sp=0 cwd=0 ti=0'
 
 
 def snap_str(s):
@@ -199,7 +228,13 @@ def gen_globalstate():
     return 'PlasVerif/Generated/GlobalState.lean', src, 'exact'
 
 
-GENERATED = [gen_globalstate]
+def gen_argpaths():
+    """control-flow skeletons of the argument readers (C05's extractor): theorem readers_agree_with_balancedArg quantifies over them"""
+    from props import c05_paths
+    return c05_paths.gen_argpaths()
+
+
+GENERATED = [gen_globalstate, gen_argpaths]
 
 # ---------------------------------------------------------------- fresh-interpreter subprocesses
 
@@ -385,6 +420,8 @@ def canon_ids(obs):
 def impl(case, aux):
     if case.stream == 'ccache':
         return impl_ccache(case)
+    if case.stream == 'holders':
+        return impl_holders(case)
     words = case.line.split()
     st, docs = words[1:words.index('|')], words[words.index('|') + 1:]
     hist, cur = [], []
@@ -401,12 +438,19 @@ def impl(case, aux):
         res = [run_event_doc(d, base) for d in hist]
     finally:
         set_state(['I'])
+    if proc_state() != PROC0:        # not part of the model: any change is reported as it is
+        res[-1] += ' !process-state ' + proc_state()
     return ' ; '.join(res)
 
 
 def judge(o):
     o.corr_ok = (o.impl == o.model)
-    if o.case.stream == 'ccache':
+    if o.case.stream == 'holders':
+        o.prop_ok = (o.impl == o.spec)
+        if not o.prop_ok:
+            o.note = ('the holders of two documents share mutable objects: what one document writes there the other one reads; objects: %s'
+                      % '; '.join(o.case.meta.get('shared_objects', [])))
+    elif o.case.stream == 'ccache':
         o.prop_ok = (o.impl == o.spec)
         if not o.prop_ok:
             o.note = ('a class sees a cached %s table that is not its own: what an environment/command means depends on which classes '
@@ -431,6 +475,8 @@ TOUCH = ('D', 'bo', 'lb', 'le', 'if', 'ar:', 'dc:', 'as:', 'nc:')
 
 
 def nontrivial(o):
+    if o.case.stream == 'holders':
+        return o.case.meta['mode'] != 'ff'
     if o.case.stream == 'ccache':
         return len(set(o.spec.split(' ; '))) >= 2
     docs = o.case.line.split(' | ')[1].split(' ; ')
@@ -565,6 +611,140 @@ def impl_ccache(case):
     return ' ; '.join(out)
 
 
+# ---------------------------------------------------------------- the per-document state holders (stream holders)
+
+_HOLD = {}
+SENTINEL = '__c17_sentinel__'
+
+
+def build_doc(words, process):
+    from plasTeX.TeX import TeX
+    src, _, _ = render_events(words)
+    doc, _ = new_document()
+    tex = TeX(doc)
+    if process:
+        tex.input(src)
+        try:
+            tex.parse()
+        except Exception:
+            pass
+    return doc, tex
+
+
+def holder_roots(doc, tex):
+    return [doc.context, doc.config, doc.userdata, doc.charsubs, doc.packageResources, doc.rendererdata,
+            doc.postParseCallbacks, vars(tex), vars(doc)]
+
+
+def is_mutable_node(o):
+    import types, logging as _l, io
+    if isinstance(o, (type, types.ModuleType, types.FunctionType, types.BuiltinFunctionType, types.MethodType, types.GeneratorType,
+                      str, bytes, int, float, complex, bool, type(None), tuple, frozenset, _l.Logger, _l.Handler, io.IOBase)):
+        return False
+    return isinstance(o, (dict, list, set)) or hasattr(o, '__dict__')
+
+
+def children(o):
+    if isinstance(o, dict):
+        return list(o.keys()) + list(o.values())
+    if isinstance(o, (list, tuple, set, frozenset)):
+        return list(o)
+    return []
+
+
+def walk(roots, number, edges, maxdepth=7, cap=4000):
+    """mutable objects reachable from the roots (through immutable tuples too); `number` maps id -> (index, object)"""
+    seen, order = set(), []
+    stack = [(r, 0, None) for r in reversed(roots)]
+    while stack and len(number) < cap:
+        o, d, parent = stack.pop()
+        if isinstance(o, (tuple, frozenset)):
+            for c in reversed(children(o)):
+                stack.append((c, d, parent))
+            continue
+        if not is_mutable_node(o):
+            continue
+        if id(o) not in number:
+            number[id(o)] = (len(number), o)
+        i = number[id(o)][0]
+        if parent is not None and edges is not None:
+            edges.add((parent, i))
+        if id(o) in seen or d >= maxdepth:
+            continue
+        seen.add(id(o))
+        order.append(o)
+        kids = children(o)
+        if hasattr(o, '__dict__') and not isinstance(o, (dict, list, set)) or hasattr(o, '__dict__') and type(o) not in (dict, list, set):
+            kids = kids + list(vars(o).values())
+        for c in reversed(kids):
+            stack.append((c, d + 1, i))
+    return order
+
+
+def gen_holders(rng, slot):
+    a_words, b_words = gen_event_doc(rng, True), gen_event_doc(rng, True)
+    mode = rng.choice(['pp', 'pp', 'pf', 'fp', 'ff'])
+    return holders_case(a_words, b_words, mode, slot)
+
+
+def holders_case(a_words, b_words, mode, slot, origin='gen'):
+    a = build_doc(a_words, mode[0] == 'p')
+    b = build_doc(b_words, mode[1] == 'p')
+    number, edges = {}, set()
+    ra, rb = holder_roots(*a), holder_roots(*b)
+    walk(ra, number, edges)
+    walk(rb, number, edges)
+    _HOLD[slot] = (a, b)
+    line = 'E%s A%s B%s' % (','.join('%d>%d' % e for e in sorted(edges)) or '-',
+                            ','.join(str(number[id(r)][0]) for r in ra), ','.join(str(number[id(r)][0]) for r in rb))
+    return Case('holders', line, {'a': a_words, 'b': b_words, 'mode': mode, 'slot': slot}, origin)
+
+
+def impl_holders(case):
+    """mutate every mutable object reachable from A's holders, then look at everything reachable from B's holders"""
+    m = case.meta
+    a, b = _HOLD.pop(m['slot'], None) or (build_doc(m['a'], m['mode'][0] == 'p'), build_doc(m['b'], m['mode'][1] == 'p'))
+    number = {}
+    ra, rb = holder_roots(*a), holder_roots(*b)
+    objs_a = walk(ra, number, None)
+    marked = []
+    for o in objs_a:
+        try:
+            if isinstance(o, dict): o[SENTINEL] = 1
+            elif isinstance(o, list): o.append(SENTINEL)
+            elif isinstance(o, set): o.add(SENTINEL)
+            else: vars(o)[SENTINEL] = 1
+            marked.append(o)
+        except Exception:
+            pass
+    seen_b = []
+    for o in walk(rb, number, None):
+        try:
+            # (identity, not ==: DOM nodes and tokens define their own equality)
+            hit = any(x is SENTINEL for x in o) if isinstance(o, list) else (SENTINEL in o) if isinstance(o, (dict, set)) else (SENTINEL in vars(o))
+        except Exception:
+            hit = False
+        if hit:
+            seen_b.append(number[id(o)][0])
+    for o in marked:
+        try:
+            if isinstance(o, dict): o.pop(SENTINEL, None)
+            elif isinstance(o, list):
+                for i in range(len(o) - 1, -1, -1):
+                    if o[i] is SENTINEL:
+                        del o[i]
+                        break
+            elif isinstance(o, set): o.discard(SENTINEL)
+            else: vars(o).pop(SENTINEL, None)
+        except Exception:
+            pass
+    case.meta['shared_objects'] = []
+    if seen_b:
+        inv = {i: o for i, o in number.values()}
+        case.meta['shared_objects'] = ['%s %s' % (type(inv[i]).__name__, repr(inv[i])[:80]) for i in seen_b[:5]]
+    return 'shared:' + (','.join(map(str, sorted(seen_b))) or '-')
+
+
 # ---------------------------------------------------------------- generation of event documents
 
 def gen_inner(rng, depth):
@@ -619,8 +799,9 @@ def gen_body(rng, depth, leaky, inlist, havecls):
 def gen_event_doc(rng, leaky):
     words = []
     havecls = rng.random() < 0.85
+    bits = variant_bits()
     if havecls:
-        words.append('dc:' + rng.choice(['book', 'report', 'article'] if leaky else ['book', 'report']))
+        words.append('dc:' + rng.choice(['book', 'report', 'article'] if leaky or bits[3] == '1' else ['book', 'report']))
     words += gen_body(rng, 0, leaky, False, havecls)
     r = rng.random()
     if r < 0.30 and len(words) > 1:       # end of input inside math, a box or a list
@@ -664,11 +845,37 @@ def generate(ctx):
         if rng.random() < 0.15 and k >= 2:
             docs[-1] = list(docs[rng.randrange(k - 1)])          # the same input twice
         yield mkcase('gstate', bits, 'I', docs)
+    for i in range(n // 2):          # stream gread: earlier documents assign registers / define column types, later ones avoid reading them
+        k = rng.choice([2, 2, 3, 3, 4, 5])
+        docs, dirty_r, dirty_c = [], set(), set()
+        for j in range(k):
+            d = [w for w in gen_event_doc(rng, rng.random() < 0.7)
+                 if not (w.startswith('us:') and int(w.split(':')[1]) in dirty_r or w.startswith('cp:') and int(w.split(':')[2]) in dirty_r
+                         or w.startswith('uc:') and int(w.split(':')[1]) in dirty_c)]
+            if rng.random() < 0.7:
+                for _ in range(rng.randint(1, 2)):
+                    fam = rng.choice(FAMILIES)
+                    src = [q for q in fam if q not in dirty_r] or [None]
+                    ev = rng.choice(['as:%d:%d' % (rng.randrange(len(REGS)), rng.randint(-3, 40)), 'nc:%d' % rng.choice([90, 89])] +
+                                    (['cp:%d:%d' % (rng.choice(fam), rng.choice(src))] if src[0] is not None else []))
+                    d.insert(rng.randint(1 if d and d[0].startswith('dc:') else 0, len(d)), ev)
+                depth, keep = 0, []          # (not inside boxes: the harness does not look into them)
+                for w in d:
+                    depth += (w == 'bo') - (w == 'bc' and depth > 0)
+                    if not (depth and w.startswith(('as:', 'cp:', 'nc:')) and w != 'bo'):
+                        keep.append(w)
+                d = keep
+            docs.append(d)
+            dirty_r |= {int(w.split(':')[1]) for w in d if w.startswith(('as:', 'cp:'))}
+            dirty_c |= {int(w.split(':')[1]) for w in d if w.startswith('nc:')}
+        yield mkcase('gread', bits, 'I', docs)
     for i in range(n):
         k = rng.choice([1, 1, 2, 3])
         yield mkcase('gleak', bits, gen_state(rng) if rng.random() < 0.8 else 'I', [gen_event_doc(rng, True) for _ in range(k)])
     for i in range(400 if ctx.tier == 'quick' else 8000):
         yield gen_ccache(rng, 'L' if i % 2 == 0 else 'A')
+    for i in range(40 if ctx.tier == 'quick' else 300):
+        yield gen_holders(rng, i)
 
 
 WITNESS = {   # leak -> (history, needs which variant bit)
@@ -694,7 +901,14 @@ def corpus():
            # register copies of every family (the operand is read as an internal quantity by readNumber/readDimen/readGlue/readMuGlue)
            mkcase('gstate', bits, 'I', [['dc:book', 'us:4', 'us:6', 'ar:numreg', 'ar:dimenreg', 'ar:gluereg'], ['cp:8:9', 'cp:6:7', 'cp:4:5', 'cp:0:1', 'as:8:6', 'as:4:3', 'as:6:2']], 'corpus'),
            mkcase('gleak', bits, 'I', [['cp:8:9'], ['as:0:5', 'us:0'], ['cp:6:7', 'cp:4:5'], ['bo', 'cp:0:1', 'bc', 'as:3:9', 'us:3']], 'corpus')]
+    for name in FIXED_WITNESSES:      # findings that have been repaired: their witnesses stay in the corpus
+        w = json.load(open(os.path.join(VERIF, 'corpus', 'C17', name + '.json')))
+        if 'case' in w:
+            cs.append(Case(w['case']['stream'], bits + ' ' + w['case']['line'].split(' ', 1)[1], w['case'].get('meta'), 'corpus'))
     return cs
+
+
+FIXED_WITNESSES = ['D6d-article-class', 'syspath-packages-dir']
 
 
 def shrink(ctx, o, evaluate):
@@ -710,7 +924,7 @@ def shrink(ctx, o, evaluate):
                     best, seq, improved = r, seq[:i] + seq[i + 1:], True
                     break
         return best
-    if o.case.stream != 'gstate':
+    if o.case.stream not in ('gstate', 'gread'):
         return o
     head, body = o.case.line.split(' | ')
     docs = [d.split() for d in body.split(' ; ')]
@@ -726,7 +940,7 @@ def shrink(ctx, o, evaluate):
             for j in range(len(d)):
                 cands.append(docs[:i] + [d[:j] + d[j + 1:]] + docs[i + 1:])
         cands = cands[:400]
-        cs = [Case('gstate', '%s | %s' % (head, ' ; '.join(' '.join(d) for d in c)), None, 'shrink') for c in cands]
+        cs = [Case(o.case.stream, '%s | %s' % (head, ' ; '.join(' '.join(d) for d in c)), None, 'shrink') for c in cands]
         for r, c in zip(evaluate(cs), cands):
             if not r.prop_ok and r.corr_ok == best.corr_ok:
                 best, docs, improved = r, c, True
@@ -762,7 +976,46 @@ def canon_text(s):
     return re.sub(r'\ba(\d{10})\b', lambda m: 'ID%d' % seen.setdefault(m.group(1), len(seen)), s)
 
 
+def run_compile_doc(src):
+    """the entry point of the `plastex` command: plasTeX.Compile.run on a file, output directory, XML dump, HTML5 renderer"""
+    import io, contextlib
+    from plasTeX import Compile
+    from plasTeX.Config import defaultConfig
+    res = {'files': {}}
+    cwd = os.getcwd()
+    d = tempfile.mkdtemp(prefix='c17-')
+    try:
+        d = os.path.realpath(d)
+        os.chdir(d)
+        open(os.path.join(d, 'job.tex'), 'w', encoding='utf-8').write(src)
+        config = defaultConfig()
+        config['general']['packages-dirs'] = [PKGDIR]
+        config['images']['imager'] = 'none'
+        config['images']['vector-imager'] = 'none'
+        config['files']['directory'] = os.path.join(d, 'out')
+        config['files']['log'] = False
+        config['general']['xml'] = True
+        config['general']['renderer'] = 'HTML5'
+        try:
+            with contextlib.redirect_stdout(io.StringIO()):
+                Compile.run('job.tex', config)
+            out = os.path.join(d, 'out')
+            res['xml'] = canon_text(open(os.path.join(out, 'job.xml'), encoding='utf-8').read())
+            for f in sorted(os.listdir(out)):
+                if f.endswith('.html'):
+                    res['files'][f] = canon_text(open(os.path.join(out, f), encoding='utf-8', errors='replace').read())
+        except Exception as e:
+            res['err'] = type(e).__name__ + ': ' + str(e)[:120]
+        res['snap'] = snap_str(read_state()) + ' ' + proc_state(os.path.realpath(d))      # before this function restores the directory itself
+    finally:
+        os.chdir(cwd)
+        shutil.rmtree(d, ignore_errors=True)
+    return res
+
+
 def run_latex_doc(src, render):
+    if render == 'compile':
+        return run_compile_doc(src)
     from plasTeX.TeX import TeX
     res = {'files': {}}
     cwd = os.getcwd()
@@ -795,7 +1048,7 @@ def run_latex_doc(src, render):
     finally:
         os.chdir(cwd)
         shutil.rmtree(d, ignore_errors=True)
-    res['snap'] = snap_str(read_state())
+    res['snap'] = snap_str(read_state()) + ' ' + proc_state()
     return res
 
 
@@ -804,8 +1057,8 @@ class LatexGen:
     references, ifthen tests, macro and counter definitions, register reads, any-typed arguments; `leaky` adds register
     assignments, the article class and a package defining a column type; `openend` stops inside math or a list."""
 
-    def __init__(self, rng, leaky, openend):
-        self.rng, self.leaky, self.openend, self.n = rng, leaky, openend, 0
+    def __init__(self, rng, leaky, openend, bits='00000'):
+        self.rng, self.leaky, self.openend, self.n, self.bits = rng, leaky, openend, 0, bits
 
     def w(self):
         self.n += 1
@@ -912,7 +1165,7 @@ class LatexGen:
         self.labels = []
         self.nlabels = rng.randint(0, 4)
         self.neq = 0
-        cls = rng.choice(['book', 'report', 'article'] if self.leaky else ['book', 'report'])
+        cls = rng.choice(['book', 'report', 'article'] if self.leaky or self.bits[3] == '1' else ['book', 'report'])
         pre = '\\documentclass{%s}\n\\usepackage{ifthen}\n' % cls
         if self.leaky and rng.random() < 0.4:
             pre += '\\usepackage{verifcol}\\verifnewcol{Z}\n'
@@ -985,17 +1238,17 @@ def check_history(srcs, render, init_snap):
 
 def pair_checks(ctx, rng, n, n_render):
     from concurrent.futures import ThreadPoolExecutor
-    init_snap = snap_str(K()['init'])
+    init_snap = snap_str(K()['init']) + ' ' + PROC0
     bits = variant_bits()
-    open_ok = bits[1] == '1'
     jobs = []
     for i in range(n):
         k = rng.choice([1, 1, 2, 2, 3, 4])
-        hist = [LatexGen(rng, False, rng.random() < 0.35).make() for _ in range(k)]
-        b = LatexGen(rng, rng.random() < 0.5, rng.random() < 0.15).make()
+        hist = [LatexGen(rng, False, rng.random() < 0.35, bits).make() for _ in range(k)]
+        b = LatexGen(rng, rng.random() < 0.5, rng.random() < 0.15, bits).make()
         if rng.random() < 0.15:
             b = rng.choice(hist)        # the same input twice
-        jobs.append((hist + [b], i < n_render))
+        # entry point: the API without rendering, the API with the HTML5 renderer, or plasTeX.Compile.run on a file
+        jobs.append((hist + [b], True if i < n_render else 'compile' if i < n_render + n_render // 2 else False))
     viol, samples, distinct = [], [], set()
     with ThreadPoolExecutor(max_workers=min(12, os.cpu_count() or 4)) as ex:
         results = list(ex.map(lambda j: check_history(j[0], j[1], init_snap), jobs))
@@ -1045,7 +1298,7 @@ def extra_checks(ctx):
 
 
 def replay_extra(ctx, extra):
-    init_snap = snap_str(K()['init'])
+    init_snap = snap_str(K()['init']) + ' ' + PROC0
     why, det = check_history(extra['documents'], extra.get('render', False), init_snap)
     print('replay pair:', why or 'holds', json.dumps(det or {})[:600])
     return bool(why)
